@@ -1,14 +1,18 @@
 """
 C14 - The DHT routing table stays a valid Kademlia tree.
 
-Four enumerations over the real ``RoutingTable`` / ``Bucket`` / ``Trie`` (ipv8/dht/routing.py, trie.py), all judged by
+Five enumerations over the real ``RoutingTable`` / ``Bucket`` / ``Trie`` (ipv8/dht/routing.py, trie.py), all judged by
 the same oracle (mc/ref/c14_ref.py: tree predicates + brute-force XOR sort) after *every* operation:
 
 1. BFS over operation histories (add / update / mark-bad / remove_bad_nodes) with bucket capacity 2 and identifiers
    whose top w bits range over the whole w-bit space (state = the table, see ``Model.digest``);
 2. the deterministic adversarial family "n nodes sharing an l-bit prefix with us" at the shipped capacity 8;
 3. tables of the *unmodified* ``Node`` class (identifier derived from IP and key) including one peer seen from two IPs;
-4. ``Bucket.generate_id`` for every bucket prefix that can exist, with ``random`` answering lo / lo+1 / mid / hi-1 / hi.
+4. ``Bucket.generate_id`` for every bucket prefix that can exist, with ``random`` answering lo / lo+1 / mid / hi-1 / hi;
+5. BFS over the real ``DHTCommunity`` with its ``PingChurn`` strategy on SimNet: nodes enter the table through the
+   protocol hooks, signed queries of a known key arrive from other addresses (aliasing between table and Network).
+
+``closest_nodes`` is compared with and without ``exclude_node``.
 
 Everything that is executed is a *script* (own id, capacity, list of low-level operations, targets); replay files are
 scripts, so a replay needs nothing but ``run_script``.
@@ -73,6 +77,34 @@ class TNode(Node):
 #   ["rmbad"]                               RoutingTable.remove_bad_nodes()
 # ------------------------------------------------------------------------------------------------
 
+def buckets_of(rt: RoutingTable) -> list:
+    """Independent walk over the trie nodes (not through Trie's own iteration helpers) -> bucket records."""
+    out = []
+    stack = [("", rt.trie.root)]
+    while stack:
+        path, tn = stack.pop()
+        if tn.value is not None:
+            b = tn.value
+            out.append((path, b.prefix_id, b.max_size,
+                        [(int.from_bytes(k, "big"), int.from_bytes(n.id, "big"), n.mid,
+                          n.failed, n.rtt) for k, n in b.nodes.items()]))
+        for ch, child in reversed(list(tn.children.items())):
+            stack.append((path + ch, child))
+    return out
+
+
+def node_objects_of(rt: RoutingTable) -> dict:
+    out: dict = {}
+    stack = [rt.trie.root]
+    while stack:
+        tn = stack.pop()
+        if tn.value is not None:
+            for n in tn.value.nodes.values():
+                out.setdefault(int.from_bytes(n.id, "big"), []).append((n, tn.value))
+        stack.extend(tn.children.values())
+    return out
+
+
 class Table:
     def __init__(self, own: int, capacity: int | None) -> None:
         self.own = own
@@ -83,30 +115,10 @@ class Table:
         self.before_ids: set = set()
 
     def buckets(self) -> list:
-        """Independent walk over the trie nodes (not through Trie's own iteration helpers)."""
-        out = []
-        stack = [("", self.rt.trie.root)]
-        while stack:
-            path, tn = stack.pop()
-            if tn.value is not None:
-                b = tn.value
-                out.append((path, b.prefix_id, b.max_size,
-                            [(int.from_bytes(k, "big"), int.from_bytes(n.id, "big"), n.mid,
-                              n.failed, n.rtt) for k, n in b.nodes.items()]))
-            for ch, child in reversed(list(tn.children.items())):
-                stack.append((path + ch, child))
-        return out
+        return buckets_of(self.rt)
 
     def node_objects(self) -> dict:
-        out = {}
-        stack = [self.rt.trie.root]
-        while stack:
-            tn = stack.pop()
-            if tn.value is not None:
-                for n in tn.value.nodes.values():
-                    out.setdefault(int.from_bytes(n.id, "big"), []).append((n, tn.value))
-            stack.extend(tn.children.values())
-        return out
+        return node_objects_of(self.rt)
 
     def apply(self, op):  # noqa: ANN001, ANN201
         self.before = self.buckets()
@@ -215,7 +227,7 @@ def generate_id_violations(prefix: str, capacity: int = 8) -> list:
 ALL_K = tuple(range(1, 21))
 
 
-def closest_violations(t: Table, buckets: list, targets: list, kset, stats: dict | None = None) -> list:  # noqa: ANN001
+def closest_violations(rt: RoutingTable, buckets: list, targets: list, kset, stats: dict | None = None) -> list:  # noqa: ANN001
     out = []
     nodes = ref.all_nodes(buckets)
     live = [n for n in nodes if not ref.is_bad(n[3])]
@@ -225,7 +237,7 @@ def closest_violations(t: Table, buckets: list, targets: list, kset, stats: dict
     for target in targets:
         tb = i2b(target)
         for k in ks:
-            got = [int.from_bytes(n.id, "big") for n in t.rt.closest_nodes(tb, max_nodes=k)]
+            got = [int.from_bytes(n.id, "big") for n in rt.closest_nodes(tb, max_nodes=k)]
             want = ref.closest(buckets, target, k)
             if stats is not None:
                 stats["closest_queries"] = stats.get("closest_queries", 0) + 1
@@ -260,6 +272,49 @@ def closest_violations(t: Table, buckets: list, targets: list, kset, stats: dict
     return out
 
 
+ABSENT_ID = int("5a" * 20, 16)
+
+
+def bucket_targets(buckets: list) -> list:
+    """One target per bucket: the walk of closest_nodes depends on the target only through the bucket it falls into
+    (the final order depends on the exact target, which the plain queries cover for the whole target space)."""
+    return [int(b[0] + "0" * (160 - len(b[0])), 2) for b in buckets]
+
+
+def exclude_violations(rt: RoutingTable, buckets: list, targets: list, kset, excludes: list,  # noqa: ANN001
+                       stats: dict | None = None) -> list:
+    """closest_nodes(target, k, exclude_node=x) == the k nearest live nodes whose identifier is not x's."""
+    out = []
+    objs = node_objects_of(rt)
+    nlive = sum(1 for n in ref.all_nodes(buckets) if not ref.is_bad(n[3]))
+    ks = [k for k in kset if k <= nlive + 1]
+    for ex in excludes:
+        if ex in objs:
+            ex_node = objs[ex][0][0]
+        else:
+            ex_node = TNode(key_obj(0), UDPv4Address("10.0.0.2", 1), i2b(ex))
+        for target in targets:
+            tb = i2b(target)
+            for k in ks:
+                got = [int.from_bytes(n.id, "big") for n in rt.closest_nodes(tb, max_nodes=k, exclude_node=ex_node)]
+                want = ref.closest(buckets, target, k, exclude=ex)
+                if stats is not None:
+                    stats["exclude_queries"] = stats.get("exclude_queries", 0) + 1
+                if got == want:
+                    continue
+                desc = (f"closest_nodes(target={ref.bits(target)[:10]}.., k={k}, exclude_node={ref.bits(ex)[:10]}..) "
+                        f"returned {[ref.bits(i)[:10] for i in got]}, the {k} nearest live nodes other than the excluded "
+                        f"one are {[ref.bits(i)[:10] for i in want]}")
+                if ex in got:
+                    out.append(("closest-excl:excluded-node-returned", desc))
+                elif len(got) < len(want):
+                    out.append(("closest-excl:too-few", desc))
+                else:
+                    out.append(("closest-excl:wrong", desc))
+                break
+    return out
+
+
 def check_transition(t: Table, op, obs, buckets: list) -> list:  # noqa: ANN001
     """What one operation may do to the membership (kept deliberately weak: the statement fixes no eviction policy)."""
     out = []
@@ -286,7 +341,7 @@ def check_transition(t: Table, op, obs, buckets: list) -> list:  # noqa: ANN001
 
 
 def check_state(t: Table, op, obs, targets: list, kset, stats: dict | None = None,  # noqa: ANN001
-                do_closest: bool = True) -> list:
+                do_closest: bool = True, exclude: str | None = None) -> list:
     """Everything the statement promises, evaluated on the table as it is now (after ``op``, if one is given)."""
     buckets = t.buckets()
     out = ref.tree_violations(buckets, t.own)
@@ -300,7 +355,13 @@ def check_state(t: Table, op, obs, targets: list, kset, stats: dict | None = Non
     if op is not None:
         out.extend(check_transition(t, op, obs, buckets))
     if do_closest:
-        out.extend(closest_violations(t, buckets, targets, kset, stats))
+        out.extend(closest_violations(t.rt, buckets, targets, kset, stats))
+        present = [n[1] for n in ref.all_nodes(buckets)]
+        if exclude == "all":      # every stored node and one that is not stored, one target per bucket, every k
+            out.extend(exclude_violations(t.rt, buckets, bucket_targets(buckets), kset, [*present, ABSENT_ID], stats))
+        elif exclude == "thin":   # oldest and newest stored node and one that is not stored, the first targets
+            out.extend(exclude_violations(t.rt, buckets, targets[:3], kset,
+                                          [*dict.fromkeys(present[:1] + present[-1:]), ABSENT_ID], stats))
     for b in buckets:
         out.extend(generate_id_violations(b[0], b[2]))
     if stats is not None:
@@ -330,7 +391,9 @@ def run_script(script: dict, stats: dict | None = None, only_last: bool = False)
         if (only_last and not last) or step < start:
             continue
         try:
-            for key, what in check_state(t, op, obs, targets, kset, stats, last or step % every == every - 1):
+            xevery = script.get("exclude_every", 1)
+            for key, what in check_state(t, op, obs, targets, kset, stats, last or step % every == every - 1,
+                                         script.get("exclude") if last or step % xevery == xevery - 1 else None):
                 out.append((step, key, what))
         except Exception as e:  # noqa: BLE001
             out.append((step, f"exception-in-query:{type(e).__name__}", f"after {op!r}: {type(e).__name__}: {e}"))
@@ -355,7 +418,7 @@ def minimise(script: dict, key: str, step: int | None = None) -> dict:
     cur["ops"] = cur["ops"][:step + 1]
     if not fails(cur):
         return script
-    if key.startswith("closest"):
+    if key.startswith("closest:"):
         for field, values in (("targets", [[x] for x in cur["targets"]]), ("ks", [[k] for k in cur.get("ks") or ALL_K])):
             for v in values:
                 trial = dict(cur, **{field: v})
@@ -418,7 +481,7 @@ class Model(core.BfsModel):
 
     def script(self, events) -> dict:  # noqa: ANN001
         return {"own": i2h(self.own), "capacity": self.capacity, "ops": [self.lower(tuple(e)) for e in events],
-                "targets": [i2h(x) for x in self.targets]}
+                "targets": [i2h(x) for x in self.targets], "exclude": "all"}
 
     def initial(self) -> Table:
         return Table(self.own, self.capacity)
@@ -460,7 +523,7 @@ class Model(core.BfsModel):
         if state_part is None:
             if len(memo) > 300_000:
                 memo.clear()
-            state_part = memo[d] = check_state(t, None, None, self.targets, ALL_K)
+            state_part = memo[d] = check_state(t, None, None, self.targets, ALL_K, exclude="all")
             self.memo_misses += 1
         return state_part + check_transition(t, self.lower(ev), obs, t.buckets())
 
@@ -472,7 +535,7 @@ def bfs_configs(ctx: core.Ctx) -> list:
         return [
             (Model(4, 0b1010, "own", (1, 3), s, 12), 4),
             (Model(4, 0b0000, "zero", (0, 1, 3), s, 16), 3),
-            (Model(4, 0b1111, "zero", (1,), s, 16), 6),
+            (Model(4, 0b1111, "zero", (1,), s, 16), 5),
             (Model(4, 0b1010, "zero", (1,), s, 12), 5),  # XOR-isomorphic to the previous world except for shared keys
             (Model(5, 0b10101, "own", (1,), s, 20), 4),
             (Model(3, 0b101, "own", (0, 1, 3), s, 5), 5),
@@ -481,7 +544,7 @@ def bfs_configs(ctx: core.Ctx) -> list:
         ]
     return [
         (Model(4, 0b1010, "own", (1, 3), s, 12), 3),
-        (Model(3, 0b101, "own", (0, 1, 3), s, 5), 4),
+        (Model(3, 0b101, "own", (0, 1, 3), s, 5), 3),
         (Model(4, 0b1111, "zero", (1,), s, 16), 4),
         (Model(3, 0b000, "zero", (1,), s, 8), 6),
     ]
@@ -518,11 +581,12 @@ def family_script(own: int, shared: int, variant: str, order: str, low: str, n: 
     flips = [own ^ (1 << (159 - p)) for p in {0, max(shared - 1, 0), shared, min(shared + 3, 159), 159}]
     targets = sorted({own, 0, (1 << 160) - 1, *ids[::3], *flips})
     out = {"own": i2h(own), "capacity": None, "ops": ops, "targets": [i2h(x) for x in targets],
+           "exclude": "thin", "exclude_every": 4,
            "label": f"family shared={shared} {variant} {order} low={low} n={n}"}
     if shared > 24:
         # closest_nodes costs O(depth^3) when fewer than k nodes are stored (0.25 s per call at depth 153): thin out
         # the queries, not the histories; the tree predicates still run after every operation
-        out.update(ks=[1, 8, 20], closest_every=4 + shared // 8,
+        out.update(ks=[1, 8, 20], closest_every=4 + shared // 8, exclude=None,
                    targets=[i2h(x) for x in sorted({own, ids[0], own ^ (1 << (159 - shared))})])
     return out
 
@@ -538,8 +602,10 @@ def family_scripts(ctx: core.Ctx) -> list:
         deep, orders = [32, 64, 152], ("asc", "rev")
     for shared in shallow + deep:
         for vi, variant in enumerate(("sibling", "deeper")):
-            # deep trees are expensive to query (see family_script): one insertion order each, rotating
-            for oi, order in enumerate(orders if shared <= 24 else orders[(shared + vi) % len(orders):][:1]):
+            # deep trees are expensive to query (see family_script): one insertion order each, rotating; quick does the
+            # same for the shallow ones (the exclude_node queries took over that budget)
+            every_order = shared <= 24 and ctx.thorough
+            for oi, order in enumerate(orders if every_order else orders[(shared + vi) % len(orders):][:1]):
                 own = owns[(shared + vi + oi) % 3]
                 low = "own" if (shared + oi) % 2 else "zero"
                 out.append(family_script(own, shared, variant, order, low, 40, ctx.seed))
@@ -570,7 +636,8 @@ def long_scripts(ctx: core.Ctx) -> list:
                 ops.append(["rmbad"])
         targets = sorted({own, *ids[::max(1, n // 24)], *[own ^ (1 << (159 - p)) for p in (0, 5, 20, 47, 60)]})
         out.append({"own": i2h(own), "capacity": None, "ops": ops, "targets": [i2h(x) for x in targets],
-                    "ks": [1, 2, 3, 8, 9, 19, 20], "closest_every": 25, "label": f"long n={n} own_top={top:04b}"})
+                    "ks": [1, 2, 3, 8, 9, 19, 20], "closest_every": 25, "exclude": "thin",
+                    "label": f"long n={n} own_top={top:04b}"})
     return out
 
 
@@ -594,7 +661,7 @@ def real_scripts(ctx: core.Ctx) -> list:
     base_ids = [idof(k, ips[j]) for j, k in enumerate(others)]
     targets = sorted({own, *base_ids})
     out.append({"own": i2h(own), "capacity": None, "ops": base, "targets": [i2h(x) for x in targets],
-                "label": "real Node class, distinct peers"})
+                "exclude": "all", "label": "real Node class, distinct peers"})
     # one peer seen from a second IP address (its identifier changes with the address): both entries are nodes
     for m in (2, 8, len(base)) if not ctx.thorough else range(1, len(base) + 1):
         for j in range(m):
@@ -603,7 +670,225 @@ def real_scripts(ctx: core.Ctx) -> list:
                 out.append({"own": i2h(own), "capacity": None,
                             "ops": [*base[:m], ["addreal", others[j], ip, 7100, 1]],
                             "targets": [i2h(x) for x in sorted({own, twin, base_ids[j], *base_ids[:m:4]})],
-                            "check_from": m, "label": f"real Node class, peer {j} of {m} also seen from {ip}"})
+                            "check_from": m, "exclude": "all",
+                            "label": f"real Node class, peer {j} of {m} also seen from {ip}"})
+    return out
+
+
+# ------------------------------------------------------------------------------------------------
+# 5. aliasing: the real DHTCommunity + PingChurn on SimNet; nodes enter the table through the protocol hooks
+# ------------------------------------------------------------------------------------------------
+
+S_ADDR = UDPv4Address("1.1.1.1", 1001)
+
+
+def _proto_addresses(n_remotes: int) -> list:
+    """Per remote peer: home address, an address with another masked IP (another node id), the home IP with another
+    port (same node id).  Fixed lists; the ids that result are whatever calc_node_id makes of them."""
+    homes = ["81.2.69.142", "145.94.0.7", "35.156.9.9"]
+    moved = ["44.33.22.11", "192.168.1.5", "100.64.1.1"]
+    return [[UDPv4Address(homes[r], 7000 + r), UDPv4Address(moved[r], 4321 + r), UDPv4Address(homes[r], 7100 + r)]
+            for r in range(n_remotes)]
+
+
+class ProtoWorld:
+    """S runs the real overlay; the remote peers are signers only (their overlays never receive anything): the
+    harness answers S's pings on their behalf from the address that was pinged, if that address is 'responsive'."""
+
+    def __init__(self, m: "ProtoModel") -> None:
+        from ipv8.dht.churn import PingChurn
+        from ipv8.dht.community import DHTCommunity
+        from .. import simnet
+        self.m = m
+        self.net = simnet.World(("c14-proto", m.seed))
+        idx = fixtures.rotate(m.seed, 1 + m.n_remotes)
+        self.s_node = self.net.add_node("S", idx[0], S_ADDR)
+        self.S = self.s_node.add_overlay(DHTCommunity)
+        self.own = int.from_bytes(calc_node_id(S_ADDR, self.S.my_peer.mid), "big")
+        rt = RoutingTable(i2b(self.own))
+        rt.trie[""] = Bucket("", m.capacity)
+        self.S.routing_tables[UDPv4Address] = rt
+        self.churn = PingChurn(self.S, ping_interval=m.ping_interval)
+        self.addrs = _proto_addresses(m.n_remotes)
+        self.remotes = []
+        for r in range(m.n_remotes):
+            node = self.net.add_node(f"R{r}", idx[1 + r], self.addrs[r][0])
+            ov = node.add_overlay(DHTCommunity)
+            ov.cancel_all_pending_tasks()
+            self.remotes.append(ov)
+        self.by_addr = {tuple(a): (r, i) for r, al in enumerate(self.addrs) for i, a in enumerate(al)}
+        self.ident = 9000
+        self.seen_exc = 0
+        self.net.send_hook = self.on_wire
+
+    def close(self) -> None:
+        self.net.close()
+
+    def on_wire(self, dg):  # noqa: ANN001, ANN201
+        """Everything S sends ends here; a ping to a responsive address of a remote peer is answered from there."""
+        from ipv8.dht.payload import PingRequestPayload, PingResponsePayload
+        where = self.by_addr.get(tuple(dg.dst))
+        if dg.sender is self.s_node.endpoint and where is not None and len(dg.data) > 22 \
+                and dg.data[22] == PingRequestPayload.msg_id and self.m.responds(*where):
+            ov = self.remotes[where[0]]
+            from ipv8.messaging.payload_headers import BinMemberAuthenticationPayload
+            auth, _ = ov.serializer.unpack_serializable(BinMemberAuthenticationPayload, dg.data, offset=23)
+            _, remainder = ov._verify_signature(auth, dg.data)
+            payload, = ov.serializer.unpack_serializable_list([PingRequestPayload], remainder, offset=23)
+            self.net.inject(self.addrs[where[0]][where[1]], S_ADDR,
+                            ov.ezr_pack(PingResponsePayload.msg_id, PingResponsePayload(payload.identifier)))
+        return None
+
+    def node_id(self, r: int, a: int) -> int:
+        return int.from_bytes(calc_node_id(self.addrs[r][a], self.remotes[r].my_peer.mid), "big")
+
+    def apply(self, ev):  # noqa: ANN001, ANN201
+        from ipv8.dht.payload import FindRequestPayload, PingRequestPayload
+        kind = ev[0]
+        S, net = self.S, self.net
+        if kind == "disc":      # the DHT's own discovery hook (what introduction callbacks end in)
+            _, r, a = ev
+            self.s_node.run(S.on_node_discovered, self.remotes[r].my_peer.public_key.key_to_bin(), self.addrs[r][a])
+        elif kind in ("ping", "find"):   # a signed query of remote r arriving from its address number a
+            _, r, a = ev
+            self.ident += 1
+            ov = self.remotes[r]
+            if kind == "ping":
+                packet = ov.ezr_pack(PingRequestPayload.msg_id, PingRequestPayload(self.ident))
+            else:
+                packet = ov.ezr_pack(FindRequestPayload.msg_id,
+                                     FindRequestPayload(self.ident, self.addrs[r][a], i2b(self.node_id(r, a)), 0, True))
+            net.inject(self.addrs[r][a], S_ADDR, packet)
+        elif kind == "walk":    # remote r walks to S from its home address (the ordinary peer-discovery path)
+            ov = self.remotes[ev[1]]
+            net.inject(self.addrs[ev[1]][0], S_ADDR, ov.create_introduction_request(S_ADDR))
+        elif kind == "churn":
+            self.s_node.run(self.churn.take_step)
+        elif kind == "tick":
+            net.run_for(self.m.tick)
+        else:
+            raise ValueError(ev)
+        net.flush()
+        return None
+
+    def tables(self) -> list:
+        return list(self.S.routing_tables.values())
+
+
+class ProtoModel(core.BfsModel):
+    def __init__(self, n_remotes: int, responsive: str, seed: int, capacity: int = 2, find: bool = False,
+                 ping_interval: float = 5.0, tick: float = 6.0) -> None:
+        self.n_remotes, self.responsive, self.seed, self.capacity = n_remotes, responsive, seed, capacity
+        self.find, self.ping_interval, self.tick = find, ping_interval, tick
+        R = range(n_remotes)
+        al: list = [("disc", r, a) for r in R for a in range(3)]
+        al += [("ping", r, a) for r in R for a in range(3)]
+        if find:
+            al += [("find", r, a) for r in R for a in range(2)]
+        al += [("walk", r) for r in R]
+        al += [("churn",), ("tick",)]
+        self.alphabet = al
+
+    def params(self) -> dict:
+        return {"part": "proto", "remotes": self.n_remotes, "responsive": self.responsive, "seed": self.seed,
+                "capacity": self.capacity, "find": self.find, "ping_interval": self.ping_interval, "tick": self.tick}
+
+    def responds(self, r: int, a: int) -> bool:
+        return self.responsive == "all" or (self.responsive == "home" and a != 1)
+
+    def initial(self) -> ProtoWorld:
+        return ProtoWorld(self)
+
+    def dispose(self, w: ProtoWorld) -> None:
+        w.close()
+
+    def apply(self, w: ProtoWorld, ev):  # noqa: ANN001, ANN201
+        return w.apply(tuple(ev))
+
+    def digest(self, w: ProtoWorld):  # noqa: ANN201
+        # Everything of S that a later event reads: clock, routing tables (per node every attribute incl. all
+        # addresses and ping/query stamps), the overlay's Network (peers, their addresses, whether the peer object
+        # *is* a routing-table node), outstanding requests.  Remote peers are stateless signers.
+        keyidx = {ov.my_peer.mid: r for r, ov in enumerate(w.remotes)}
+        table_objs = {id(n) for rt in w.tables() for places in node_objects_of(rt).values() for n, _ in places}
+        tabs = []
+        for rt in w.tables():
+            rows = []
+            stack = [("", rt.trie.root)]
+            while stack:
+                path, tn = stack.pop()
+                if tn.value is not None:
+                    b = tn.value
+                    rows.append((path, b.prefix_id, b.max_size, tuple(
+                        (k.hex(), n.id.hex(), keyidx.get(n.mid, -1), n.failed, round(n.rtt, 6),
+                         tuple(sorted(map(tuple, n.addresses.values()))), n.last_ping_sent, n.last_response,
+                         tuple(n.last_queries)) for k, n in b.nodes.items())))
+                for ch, child in reversed(list(tn.children.items())):
+                    stack.append((path + ch, child))
+            tabs.append(tuple(rows))
+        netw = w.S.network
+        peers = tuple((keyidx.get(p.mid, -1), tuple(sorted(map(tuple, p.addresses.values()))), id(p) in table_objs)
+                      for p in netw.verified_peers)
+        known = tuple(sorted(tuple(a) for a in netw._all_addresses))
+        services = tuple(sorted(keyidx.get(Peer_mid(k), -1) for k in netw.services_per_peer))
+        pending = tuple(sorted((c.prefix, c.node.id.hex() if hasattr(c, "node") else "", round(getattr(c, "start_time", 0), 6))
+                               for c in w.S.request_cache._identifiers.values()))
+        return (round(seams.CLOCK.now, 6), tuple(tabs), peers, known, services, pending)
+
+    def check(self, w: ProtoWorld, hist, ev, obs) -> list:  # noqa: ANN001
+        out = []
+        ids = sorted({w.node_id(r, a) for r in range(self.n_remotes) for a in range(3)})
+        for rt in w.tables():
+            buckets = buckets_of(rt)
+            out.extend(ref.tree_violations(buckets, w.own))
+            for node_id, places in node_objects_of(rt).items():
+                for _n, b in places:
+                    if rt.get_bucket(i2b(node_id)) is not b:
+                        out.append(("tree:lookup-misses-node", f"get_bucket({ref.bits(node_id)[:12]}..) is not the bucket "
+                                                               f"{b.prefix_id!r} that holds the node"))
+            out.extend(closest_violations(rt, buckets, [*ids, w.own], ALL_K))
+            present = [n[1] for n in ref.all_nodes(buckets)]
+            out.extend(exclude_violations(rt, buckets, [*bucket_targets(buckets), *ids], ALL_K, [*present, ABSENT_ID]))
+        excs = w.net.loop.exceptions
+        for ctx_ in excs[w.seen_exc:]:
+            e = ctx_.get("exception")
+            out.append((f"proto:exception-in-callback:{type(e).__name__}", f"{ctx_.get('message')}: {e!r}"))
+        w.seen_exc = len(excs)
+        return out
+
+
+def Peer_mid(public_key_bin: bytes) -> bytes:  # noqa: N802
+    import hashlib as _h
+    return _h.sha1(public_key_bin).digest()
+
+
+def proto_configs(ctx: core.Ctx) -> list:
+    s = ctx.seed
+    if ctx.thorough:
+        return [(ProtoModel(1, "home", s), 5), (ProtoModel(1, "none", s, find=True), 5),
+                (ProtoModel(2, "home", s), 4), (ProtoModel(2, "all", s, find=True), 3),
+                (ProtoModel(3, "home", s, capacity=2), 3)]
+    return [(ProtoModel(1, "home", s), 4), (ProtoModel(2, "home", s), 3)]
+
+
+def proto_replay(data: dict) -> list:
+    w = data["world"]
+    m = ProtoModel(w["remotes"], w["responsive"], w["seed"], w["capacity"], w["find"], w["ping_interval"], w["tick"])
+    seams.reseed(("bfs", m.seed))
+    world = m.initial()
+    out: list = []
+    try:
+        hist = [tuple(e) for e in data["history"]]
+        for i, ev in enumerate(hist):
+            try:
+                obs = m.apply(world, ev)
+            except Exception as e:  # noqa: BLE001
+                return [(f"exception:{type(e).__name__}:{ev[0]}", f"{type(e).__name__}: {e}")]
+            found = m.check(world, hist[:i], ev, obs)
+            if i == len(hist) - 1:
+                out = found
+    finally:
+        m.dispose(world)
     return out
 
 
@@ -697,6 +982,21 @@ def run(ctx: core.Ctx) -> core.Report:
             report(v.key, what, {"kind": "script", "world": model.params(), **script})
         phase(f"bfs{len(runs)}")
 
+    # 5: the real overlay with its churn strategy (aliasing between routing table and Network)
+    proto_runs = []
+    for model, depth in proto_configs(ctx):
+        r = core.bfs(model, depth, ctx.jobs, chunk=4)
+        states += r["states"]
+        transitions += r["transitions"]
+        outcomes += r["distinct_outcomes"]
+        exhaustive &= not r["capped"]
+        proto_runs.append({"world": model.params(), "alphabet_size": len(model.alphabet), "depth": r["completed_depth"],
+                           "states": r["states"], "transitions": r["transitions"], "levels": r["levels"]})
+        samples.extend(r["samples"][:1])
+        for v in r["violations"]:
+            report(v.key, v.what, {"kind": "proto", "world": model.params(), "history": v.replay["history"]})
+        phase(f"proto{len(proto_runs)}")
+
     # 2 + 3: deterministic scripts, oracle after every operation
     scripts = family_scripts(ctx) + real_scripts(ctx) + long_scripts(ctx)
     fam_stats = {"scripts": len(scripts), "ops": 0, "closest_queries": 0, "max_depth": 0, "max_nodes": 0,
@@ -718,7 +1018,7 @@ def run(ctx: core.Ctx) -> core.Report:
         "states": states, "transitions": transitions,
         "traces_validated_against_impl": transitions + fam_stats["scripts"],
         "samples": samples, "exhaustive": exhaustive, "distinct_outcomes": outcomes, "runs": runs,
-        "scripted_histories": fam_stats, "generate_id_evaluations": gen_evals,
+        "protocol_runs": proto_runs, "scripted_histories": fam_stats, "generate_id_evaluations": gen_evals,
         "cpu_seconds_by_phase": cpu, "cpu_seconds": round(sum(cpu.values()), 1),
         "bounds": {"bfs": "capacity 2 (3 in one thorough world), ids = all 2^w top-bit patterns, low bits zero or ours; "
                           "events add(id, rtt) / update / fail / remove_bad_nodes; every target of the w-bit space "
@@ -727,7 +1027,10 @@ def run(ctx: core.Ctx) -> core.Report:
                              "l in 0..24 + {31,32,63,64,100,152} quick, 0..152 thorough; k in 1..20",
                    "long": "300 (quick) / 2000 (thorough) clustered nodes, tree checked after every operation, "
                            "closest_nodes every 25th",
-                   "generate_id": "every prefix on or next to our own path up to length 157 x 5 answers of random"},
+                   "generate_id": "every prefix on or next to our own path up to length 157 x 5 answers of random",
+                   "exclude_node": "every BFS state: every stored node + one absent id x one target per bucket x every k",
+                   "proto": "real DHTCommunity + PingChurn on SimNet, capacity-2 table, 1-3 remote peers x 3 source "
+                            "addresses; events disc/ping/find/walk/churn/tick; depths see protocol_runs"},
         "explanation": "Every transition runs on the real RoutingTable; afterwards an independent walk over the trie nodes "
                        "is judged by mc/ref/c14_ref.py (partition, ownership, capacity, own-path splits) and "
                        "closest_nodes is compared with a brute-force XOR sort for every target and k.",
@@ -739,7 +1042,10 @@ def run(ctx: core.Ctx) -> core.Report:
         "unmodified class)",
         "the statement fixes no eviction policy: which node leaves a full bucket is not judged, only that add() never "
         "reports success without storing the node and never makes foreign nodes appear",
-        "closest_nodes(exclude_node=...) is not compared (the statement does not mention it)",
+        "closest_nodes(exclude_node=x) is read as 'the k nearest live nodes whose identifier differs from x.id' "
+        "(this is how find-requests use it)",
+        "protocol part: remote peers are signers whose pings are answered by the harness; S's Network/routing-table "
+        "object sharing is reported only through the invariants it breaks",
     ])
 
 
@@ -747,6 +1053,8 @@ def replay(ctx: core.Ctx, data: dict) -> list:
     if data.get("kind") == "generate_id":
         _GEN_CACHE.clear()
         return [core.Violation(k, w) for k, w in generate_id_violations(data["prefix"])]
+    if data.get("kind") == "proto":
+        return [core.Violation(k, w) for k, w in dict(proto_replay(data)).items()]
     res = run_script(data)
     seen, out = set(), []
     for _step, key, what in res:
